@@ -63,7 +63,7 @@ def make_replayer(q):
 
     def rp(chk, bad, tir, contract):
         if "r" not in cache:
-            cache["r"] = runtime_search(chk, [q], 80)[1]
+            cache["r"] = runtime_search(chk, [q], 30)[1]
         return cache["r"]
 
     return rp
